@@ -46,6 +46,9 @@ var alphabet = []string{
 // lists one rule longer than the tier's bound are enumerated over this sub-alphabet (indices into alphabet)
 var subAlphabet = []int{0, 3, 7, 10}
 
+// ... and over the set rules alone (the same object set again after another object was introduced)
+var setAlphabet = []int{0, 1, 2, 3, 4}
+
 const subLen = 3
 
 const simTicks = 12
@@ -484,16 +487,19 @@ func runSemantics(run *vlib.Run, scratch string, binCh <-chan string, binErr *er
 	forAllLists(len(alphabet), maxLen, func(idx []int) { lists = append(lists, append([]int{}, idx...)) })
 	if maxLen < subLen {
 		// one more rule per list over a small sub-alphabet (set absolute / set periodic on the same input and two observers)
-		forAllLists(len(subAlphabet), subLen, func(idx []int) {
-			if len(idx) <= maxLen {
-				return
-			}
-			var l []int
-			for _, i := range idx {
-				l = append(l, subAlphabet[i])
-			}
-			lists = append(lists, l)
-		})
+		for _, sub := range [][]int{subAlphabet, setAlphabet} {
+			sub := sub
+			forAllLists(len(sub), subLen, func(idx []int) {
+				if len(idx) <= maxLen {
+					return
+				}
+				var l []int
+				for _, i := range idx {
+					l = append(l, sub[i])
+				}
+				lists = append(lists, l)
+			})
+		}
 	}
 	var compileChecks int64
 	for _, mi := range infos {
